@@ -108,8 +108,8 @@ theorem items_ensure (reloc : Bool) (h : Heap) (w : WF h) (b o cap n : Nat) (xs 
   unfold ensureCapacity
   split
   · simp only [run_bind, run_growM, run_setItemsM]
-    rw [grow_eq h b (cap * 2) o cap xs hb]
-    exact items_grown h w b o cap (cap * 2) xs ys hb a' ha'
+    rw [grow_eq h b (max (cap * 2) n) o cap xs hb]
+    exact items_grown h w b o cap (max (cap * 2) n) xs ys hb a' ha'
   · simp only [run_bind, run_pure, run_setItemsM]
     exact items_setItems h w b o cap xs ys hb a'
 
